@@ -318,6 +318,9 @@ func (m *Meta) RenameTable(from, to string) *Meta {
 	}
 	tsNew := *ts // copy
 	tsNew.Table = to
+	// the new name may have been persisted previously (and have a tombstone)
+	// so a later drop must not skip the tombstone
+	tsNew.created = 0
 	if tmp, ok := m.schema.Get(to); ok && !tmp.IsTomb() {
 		panic("can't rename to existing table: " + to)
 	}
@@ -325,6 +328,7 @@ func (m *Meta) RenameTable(from, to string) *Meta {
 	assert.That(ok && ti != nil)
 	tiNew := *ti // copy
 	tiNew.Table = to
+	tiNew.created = 0
 
 	m.setFkeyIIndex(&tsNew)
 	mu := newMetaUpdate(m)
